@@ -18,7 +18,7 @@ import (
 // The decoder's grouping is a state machine over a stream of units and its positions come from
 // stream accounting; the ISM path seeks on the disk. The producer's emission log is ground truth.
 
-var c12Modes = []string{"styp", "sidx", "mfra", "none", "start-on-moof", "multi-sidx"}
+var c12Modes = []string{"styp", "sidx", "mfra", "none", "start-on-moof", "multi-sidx", "interleaved-sidx"}
 
 // unit of the emitted stream as the independent walker sees it
 type c12Frag struct {
@@ -81,8 +81,243 @@ func c12Kept(data []byte, top []*ref.Box, types map[string]bool) []byte {
 	return out
 }
 
+var c12Corpus []*work.CorpusFile
+
+func c12Setup() error {
+	if err := work.SetupPackager(); err != nil {
+		return err
+	}
+	c, _ := work.LoadCorpus()
+	for _, cf := range c {
+		if !cf.HasMoov || !cf.HasMoof || len(cf.Data) > 300<<10 {
+			continue
+		}
+		ok := false
+		func() {
+			defer func() { recover() }()
+			f, err := decodeMem(cf.Data)
+			ok = err == nil && f.Init != nil && len(f.Segments) > 0
+		}()
+		if ok {
+			c12Corpus = append(c12Corpus, cf)
+		}
+	}
+	if len(c12Corpus) < 3 {
+		return fmt.Errorf("c12: only %d fragmented corpus files with init", len(c12Corpus))
+	}
+	return nil
+}
+
+// c12CorpusRun: real fragmented files. Ground truth grouping comes from the independent walk: styp boxes if there
+// are any, else the media references of the top-level sidx box(es), else one segment.
+func c12CorpusRun(r *sim.Run) {
+	t := r.T
+	cf := c12Corpus[t.Draw(len(c12Corpus))]
+	stream := cf.Data
+	d, err := ref.DemuxStream(stream, nil)
+	if err != nil || d.Movie == nil {
+		panic(sim.HarnessAbort{Msg: "corpus file not demuxable: " + cf.Name})
+	}
+	frs := c12Frags(stream, d.Top)
+	if len(frs) == 0 {
+		return
+	}
+	var groups [][]uint32
+	mode := "corpus:single"
+	hasStyp := false
+	for _, b := range d.Top {
+		if b.Type == "styp" {
+			hasStyp = true
+		}
+	}
+	switch {
+	case hasStyp:
+		mode = "corpus:styp"
+		fi := 0
+		var cur []uint32
+		started := false
+		for _, b := range d.Top {
+			switch b.Type {
+			case "styp":
+				if started && len(cur) > 0 {
+					groups = append(groups, cur)
+					cur = nil
+				}
+				if started && len(cur) == 0 && len(groups) > 0 {
+					// a styp directly after a styp opens an (empty) segment in the library too: such files are not in the corpus
+				}
+				started = true
+			case "moof":
+				if fi < len(frs) {
+					cur = append(cur, frs[fi].seq)
+					fi++
+				}
+				started = true
+			}
+		}
+		if len(cur) > 0 {
+			groups = append(groups, cur)
+		}
+	default:
+		// every top-level sidx box delimits (in front of the media, or interleaved with it)
+		type refSpan struct{ start, end int64 }
+		var spans []refSpan
+		seenMoof, interleaved := false, false
+		for _, b := range d.Top {
+			if b.Type == "moof" {
+				seenMoof = true
+			}
+			if b.Type != "sidx" {
+				continue
+			}
+			if seenMoof {
+				interleaved = true
+			}
+			pl := stream[b.Payload():b.End()]
+			if len(pl) < 24 {
+				continue
+			}
+			pos := 12
+			var fo uint64
+			if pl[0] == 0 {
+				fo = uint64(binary.BigEndian.Uint32(pl[pos+4:]))
+				pos += 8
+			} else {
+				fo = binary.BigEndian.Uint64(pl[pos+8:])
+				pos += 16
+			}
+			cnt := int(binary.BigEndian.Uint16(pl[pos+2:]))
+			pos += 4
+			at := b.End() + int64(fo)
+			for i := 0; i < cnt && pos+12 <= len(pl); i++ {
+				w := binary.BigEndian.Uint32(pl[pos:])
+				sz := int64(w & 0x7fffffff)
+				if w>>31 == 0 {
+					spans = append(spans, refSpan{at, at + sz})
+				}
+				at += sz
+				pos += 12
+			}
+		}
+		if len(spans) > 0 {
+			mode = "corpus:sidx"
+			if interleaved {
+				mode = "corpus:interleaved-sidx"
+			}
+			groups = make([][]uint32, len(spans))
+			for _, fr := range frs {
+				for si, sp := range spans {
+					if fr.moofStart >= sp.start && fr.moofStart < sp.end {
+						groups[si] = append(groups[si], fr.seq)
+					}
+				}
+			}
+			var ne [][]uint32
+			for _, g := range groups {
+				if len(g) > 0 {
+					ne = append(ne, g)
+				}
+			}
+			groups = ne
+		} else {
+			var all []uint32
+			for _, fr := range frs {
+				all = append(all, fr.seq)
+			}
+			groups = [][]uint32{all}
+		}
+	}
+	refID := uint32(0)
+	for _, h := range []string{"vide", "soun"} {
+		for _, tr := range d.Movie.Tracks {
+			if refID == 0 && tr.Handler == h {
+				refID = tr.ID
+			}
+		}
+	}
+	if refID == 0 {
+		refID = d.Movie.Tracks[0].ID
+	}
+	r.Probe(mode)
+	r.NonTriv = true
+	r.Event("corpus", int(sim.HashString(cf.Name)&0xffff))
+	r.Logf("corpus file %s mode=%s: %d fragments, expected grouping %v, reference track %d", cf.Name, mode, len(frs), groups, refID)
+	cfg := sim.DrawDelivery(t)
+	viaSR := t.Bool()
+	var f *mp4.File
+	f, err = decodeWith(r, cf.Name, stream, viaSR, cfg)
+	if err != nil {
+		r.Violate("c12-decode", "decoding corpus file %s failed: %v", cf.Name, err)
+		return
+	}
+	var got [][]uint32
+	for si, sg := range f.Segments {
+		var g []uint32
+		for fi, fr := range sg.Fragments {
+			if fr.Moof == nil || fr.Mdat == nil || fr.Moof.Mfhd == nil {
+				r.Violate("c12-fragment-incomplete", "%s: segment %d fragment %d has moof=%v mdat=%v", cf.Name, si, fi, fr.Moof != nil, fr.Mdat != nil)
+				continue
+			}
+			g = append(g, fr.Moof.Mfhd.SequenceNumber)
+		}
+		got = append(got, g)
+	}
+	if fmt.Sprint(got) != fmt.Sprint(groups) {
+		cls := "c12-grouping"
+		if mode == "corpus:interleaved-sidx" {
+			cls = "c12-grouping:interleaved-sidx-without-styp"
+		}
+		r.Violate(cls, "%s (%s): decoded grouping %v, the delimiters in the file give %v", cf.Name, mode, got, groups)
+		return
+	}
+	// third-party init boxes may carry non-zero ISO reserved fields that the library normalises (C01's don't-care
+	// list): the init boxes are compared only if the file is a fixed point of decode + box-tree encode
+	keep := map[string]bool{"emsg": true, "moof": true, "mdat": true}
+	if bt, err := encodeBoxTree(r, f); err == nil && bytes.Equal(bt, stream) {
+		keep["ftyp"], keep["moov"] = true, true
+		r.Probe("corpus-file-canonical")
+	}
+	enc := func() []byte {
+		s := sim.NewSink(nil)
+		var err error
+		r.Guard("Encode", func() { err = f.Encode(s) })
+		if err != nil {
+			r.Violate("c12-reencode-error", "%s: segment-mode Encode failed: %v", cf.Name, err)
+			return nil
+		}
+		return s.Buf
+	}
+	out := enc()
+	if out == nil {
+		return
+	}
+	topO, err := ref.Walk(out, 0, int64(len(out)), true)
+	if err != nil {
+		r.Violate("c12-reencode-bytes", "%s: re-encoded file is not a box sequence: %v", cf.Name, err)
+		return
+	}
+	if a, b := c12Kept(out, topO, keep), c12Kept(stream, d.Top, keep); !bytes.Equal(a, b) {
+		r.Violate("c12-reencode-bytes", "%s: init boxes + fragments of the re-encoded file differ from the input (first diff at %d of %d/%d)", cf.Name, firstDiff(a, b), len(a), len(b))
+		return
+	}
+	add, nz := true, t.Bool()
+	r.Guard("UpdateSidx", func() { err = f.UpdateSidx(add, nz) })
+	r.Event("UpdateSidx", btoi(nz))
+	if err != nil {
+		r.Violate("c12-updatesidx-error", "%s: UpdateSidx failed: %v", cf.Name, err)
+		return
+	}
+	if out = enc(); out != nil {
+		c12CheckIndex(r, mode+":"+cf.Name, out, groups, refID, 0)
+	}
+}
+
 func c12Run(r *sim.Run) {
 	t := r.T
+	if t.Chance(150) {
+		c12CorpusRun(r)
+		return
+	}
 	mode := c12Modes[t.Draw(len(c12Modes))]
 	opts := work.PackOpts{MaxTracks: 3, MaxSegs: 4, MaxFrags: 3, MaxSamples: 4, Foreign: mode != "mfra", Styp: 2, NoEmptyTrack: false}
 	if mode == "styp" {
@@ -181,8 +416,12 @@ func c12Run(r *sim.Run) {
 		r.Probe("multi-sidx-stream")
 	}
 	var segStarts []int64
-	for _, s := range p.Segs {
+	for si, s := range p.Segs {
 		segStarts = append(segStarts, int64(len(stream)))
+		if mode == "interleaved-sidx" {
+			// DASH on-demand style without styp: one sidx with a single reference in front of every subsegment
+			stream = append(stream, work.RawSidx(byte(t.Draw(2)), refID, p.Tracks[refIdx].Timescale, 0, 0, []work.SidxRefSpec{{Size: uint32(len(s.Bytes)), Dur: segDur(si)}})...)
+		}
 		stream = append(stream, s.Bytes...)
 	}
 	mediaEnd := int64(len(stream))
@@ -333,7 +572,7 @@ func c12Run(r *sim.Run) {
 	}
 	// ---- (3) UpdateSidx history, then encode and check the index against the output bytes
 	n := 1 + t.Draw(2)
-	added := mode == "sidx" || mode == "multi-sidx"
+	added := mode == "sidx" || mode == "multi-sidx" || mode == "interleaved-sidx"
 	for i := 0; i < n; i++ {
 		add, nz := t.Bool(), t.Bool()
 		r.Guard("UpdateSidx", func() { err = f.UpdateSidx(add, nz) })
@@ -417,10 +656,33 @@ func c12CheckIndex(r *sim.Run, mode string, out []byte, groups [][]uint32, refID
 		r.Violate("c12-sidx", "output has %d fragments, %d expected", len(frs), nfr)
 		return
 	}
-	stypBefore := map[int64]int64{} // fragment start -> start of the styp directly before it
+	// first byte of the segment that begins with the fragment starting at a given position: the styp box and/or the
+	// sidx boxes directly in front of it belong to that segment - except for sidx boxes in front of the very first
+	// media box, which are the file-level index (skipped by first_offset), unless a styp precedes them.
+	segStartOf := map[int64]int64{}
+	firstMedia := int64(-1)
+	for _, b := range d.Top {
+		if b.Type == "moof" || b.Type == "styp" || b.Type == "emsg" {
+			firstMedia = b.Start
+			break
+		}
+	}
 	for i, b := range d.Top {
-		if b.Type == "styp" && i+1 < len(d.Top) {
-			stypBefore[d.Top[i+1].Start] = b.Start
+		if b.Type != "moof" && b.Type != "emsg" {
+			continue
+		}
+		j := i - 1
+		start := b.Start
+		for j >= 0 && d.Top[j].Type == "sidx" {
+			j--
+		}
+		if j >= 0 && d.Top[j].Type == "styp" {
+			start = d.Top[j].Start
+		} else if j+1 < i && d.Top[j+1].Start > firstMedia {
+			start = d.Top[j+1].Start // sidx run after earlier media: it opens this segment
+		}
+		if _, dup := segStartOf[b.Start]; !dup {
+			segStartOf[b.Start] = start
 		}
 	}
 	anchor := sidx.End() + int64(firstOff)
@@ -430,7 +692,7 @@ func c12CheckIndex(r *sim.Run, mode string, out []byte, groups [][]uint32, refID
 	for gi, g := range groups {
 		first := frs[k]
 		start := first.start
-		if s, ok := stypBefore[start]; ok {
+		if s, ok := segStartOf[start]; ok {
 			start = s
 		}
 		if cur != start {
@@ -465,14 +727,14 @@ func init() {
 	sim.Register(&sim.Prop{
 		ID:    "C12",
 		Level: "exploration",
-		Rule: "each run: a packager node emits 1-4 segments x 1-3 fragments x 1-3 tracks (emsg/prft/free/uuid/unknown boxes in front of moofs, payload in or after the fragment) and the stream is assembled with one delimiter mode: styp per segment, raw top-level sidx (v0/v1, optional non-zero first_offset), two leaf sidx boxes with or without a parent sidx (hierarchical index), raw mfra/tfra/mfro + ISM flag on a seekable SimDisk handle (optional seek error), none, none + start-on-moof; " +
+		Rule: "15% of runs take a real fragmented corpus file (ground truth grouping from the independent walk: styp boxes, else media references of the top-level sidx box(es), else one segment) through decode, segment-mode re-encode, UpdateSidx and the index check; the other runs: a packager node emits 1-4 segments x 1-3 fragments x 1-3 tracks (emsg/prft/free/uuid/unknown boxes in front of moofs, payload in or after the fragment) and the stream is assembled with one delimiter mode: styp per segment, raw top-level sidx (v0/v1, optional non-zero first_offset), two leaf sidx boxes with or without a parent sidx (hierarchical index), one single-reference sidx in front of every segment (no styp), raw mfra/tfra/mfro + ISM flag on a seekable SimDisk handle (optional seek error), none, none + start-on-moof; " +
 			"decode by reader path with seeded delivery, lazy or eager, or slice path; (1) grouping of mfhd sequence numbers per segment and moof positions vs the producer's emission log / independent walk, (2) segment-mode re-encode by either encoder keeps ftyp+moov+emsg+moof+mdat bytes in order, " +
 			"(3) a seeded history of 1-2 UpdateSidx(add, nonZeroEPT) then encode: references located in the OUTPUT bytes by the independent walker must be contiguous, start on each segment's first byte, end at the end of the media, durations = reference-track sums from the independent demuxer. " +
 			"non-trivial = every run (unit stream + delivery); distinct = hash of (API history, mode, segment/fragment counts, UpdateSidx history, delivered read sizes).",
 		Assumptions: []string{"delimiter modes are pure (no mixing of styp with sidx/mfra), because the statement does not define precedence", "mfra mode carries no foreign top-level boxes", "reference_ID and earliest_presentation_time values are not constrained by the statement and not checked"},
 		Real:        realLib, Stub: []string{"io.Reader/io.ReadSeeker (SimDisk handle incl. seek errors)", "unit stream assembly with raw delimiter boxes", "virtual device time"}, RealNoFault: realNoFault,
 		Runs:       map[string]int{"quick": 300000, "thorough": 25000000},
-		Setup:      work.SetupPackager,
+		Setup:      c12Setup,
 		Run:        c12Run,
 		WantFaults: []string{"seek-eio", "read-short", "read-zero"},
 		WantProbes: []string{"sidx-tiling-checked", "sidx-first-offset-nonzero"},
